@@ -34,7 +34,11 @@ RULE = ("random pipelines of 1..6 files over a measurement of 1..40 events "
         "superset with repeats, identity, explicit basinmap names), internal "
         "basins, filtered exports from files and from hierarchy children of "
         "depth 1..2 (chains up to depth 4, with/without stored features, "
-        "default feature list), optional move of all files to another "
+        "default feature list), copies (dclab-compress, dclab-repack, "
+        "rtdc_copy of scalar features) of referrer files, 22% focus cases "
+        "(non-monotone maps: permutations, repeats+skips, read by slice / "
+        "mask / [:] / iteration / np.array on image, mask, contour, trace), "
+        "optional move of all files to another "
         "directory; queries by integer (also negative / out of range), "
         "slices with steps, boolean and integer arrays and [:] in orders "
         "that exercise the cached and uncached routes; a case is non-trivial "
@@ -48,10 +52,10 @@ TRUSTED_BASE = [
     "target (exercised by the harness incl. moving the files, not modelled)",
     "numpy indexing semantics (negative indices, slices with step, boolean "
     "and integer arrays) are the reference for both the oracle and the model",
-    "gap: that Export.hdf5 as a whole maps a sound store to a sound store is "
-    "not one theorem; it is covered by the theorems on its parts "
-    "(export_map, hier_map, store_basins, lookup over sound stores) plus "
-    "the correspondence of the whole model function `export` with the code",
+    "the pipeline theorem is stated per step (export maps a consistent store "
+    "to a consistent store; copy keeps lookups); that hand-written referrer "
+    "files are consistent is the hypothesis store_sound, checked by the "
+    "oracle on every generated file",
     "hierarchy children are an oracle here: child[f] = root[f] at "
     "map_indices_child2root (C04 covers them)",
     "not modelled: remote basins, Windows paths, ancillary features, order "
